@@ -3,12 +3,12 @@ package c08
 
 import (
 	"bytes"
-	"runtime/debug"
 	"context"
 	"encoding/json"
 	"fmt"
 	"net/url"
 	"reflect"
+	"runtime/debug"
 	"strings"
 	"time"
 
@@ -327,6 +327,15 @@ func originsKey(format string) string { return "C08/" + format + "/pin/non-empty
 
 func run(c *fw.Ctx, idx int) {
 	r := c.Rand("main")
+	// the first cases are the Raft-log family (a real single-peer raft.Consensus)
+	nraft := 8
+	if c.Thorough() {
+		nraft = 64
+	}
+	if idx < nraft {
+		raftLogCase(c, r, idx)
+		return
+	}
 	switch idx % 8 {
 	case 0:
 		protoRoundTrip(c, r)
